@@ -2,9 +2,11 @@
 from contracts import search
 from props.common import *  # noqa: F401,F403
 
-FUNCTIONS = SEARCH_FUNCS + DESIGN_FUNCS + [f"{S}:RowWiseModifiedBisectionSearch.calculate_excess"]
+from contracts import rowsearch  # noqa: E402
+
+FUNCTIONS = SEARCH_FUNCS + DESIGN_FUNCS + [f"{S}:RowWiseModifiedBisectionSearch.calculate_excess"] + rowsearch.ROWSEARCH
 NATIVE_FUNCTIONS = SEARCH_NATIVES
-LEVEL = "other"
+LEVEL = "proof"
 
 
 def lemmas():
@@ -16,17 +18,18 @@ ASSUMPTIONS = [A_REAL, A_ENGINE, A_DET, A_ORACLE,
                "A-NODE: evaluating the three-height g-function family at a stored height equals the single-height computation (hypothesis of the manager-level clause; C11 proves the interpolation part)",
                "A-HMONO: feasibility at the minimum height implies feasibility at the maximum height (hypothesis of the manager-level clause)",
                "A-LIP: |d excess / d height| <= 0.5 K/m on the sizing window and heights <= 400 m (hypothesis of lemma root-within-sizing-tolerance)",
-               "RowWise search: covered by the bounded oracle-stubbed run-time contract only (see NOT_PROVED)"]
-NOT_PROVED = ["RowWiseModifiedBisectionSearch.search is not under a discharged contract yet (bounded stand-in only)",
-              "manager-level clause is proved for the near-square and rectangle designs; bi-rectangle / bi-zoned / constrained are proved at the level of their search classes (Bisection2D.__init__, BisectionZD.*)",
+               "RowWise search (contracts/rowsearch.py): fields are abstract references; FIELD(spacing) = the sweep's result for the search's fixed lot / zones / window (A-DET, at least one borehole ASSUMED); "
+               "A-PERM: the excess of a field does not depend on the order of its boreholes (point_sort only reorders; nested helper used through an ASSUMED view); A-SINGLE: the excess of a "
+               "one-borehole field does not depend on where the borehole stands (the search evaluates [[0,0]] and returns the last borehole of the sorted field); spacing_step > 0"]
+NOT_PROVED = ["manager-level clause is proved for the near-square and rectangle designs; bi-rectangle / bi-zoned / constrained are proved at the level of their search classes (Bisection2D.__init__, BisectionZD.*)",
               "numerical tolerance 1e-3 K rests on A-BRENT + A-LIP (lemma), not on the floating-point code"]
 EXPLANATION = ("Every search class is verified against the abstract oracle EX: on a normal return that did not use the continue-if-unmet escape the selected candidate "
                "has negative excess at maximum height (or the height window brackets a root for the one-borehole field), for candidate lists of every length and "
                "every sign pattern of the excess (loop invariants of the integer bisection and of the final selection, no unrolling). GHE.size / solve_root are verified "
                "against a model of brentq; GHEManager.find_design composes search -> compute_g_functions -> size and yields: excess(returned height) changes sign within the solver "
                "tolerance or the height is clamped at the minimum with negative excess. Counter-models are replayed on the real search()/search_successive() with a table-driven oracle.")
-LEVEL_TEXT = ("[level other because RowWiseModifiedBisectionSearch.search, one of the search classes the statement quantifies over, is covered only by a bounded oracle-stubbed run-time contract] Deductive proof over the abstract excess oracle (all loads, soils, pipes, fluids, limits are inside it): each bisection search returns a candidate that is feasible at "
+LEVEL_TEXT = ("Deductive proof over the abstract excess oracle (all loads, soils, pipes, fluids, limits are inside it): each bisection search returns a candidate that is feasible at "
               "maximum height unless the documented escape is taken, and find_design sizes it to a height where the excess changes sign within solver tolerance or clamps at the "
-              "minimum height with negative excess; all candidate-list lengths, thresholds and sign patterns at once. RowWise and the 1e-3 K figure are bounded/assumption-based.")
-LEVEL_NOTE = "Trusted: pyvc, z3/cvc5, brentq model (A-BRENT), A-NODE, A-HMONO, A-LIP, A-DET, A-REAL; RowWise search only bounded."
+              "minimum height with negative excess; all candidate-list lengths, thresholds and sign patterns at once. The 1e-3 K figure is assumption-based (A-BRENT + A-LIP).")
+LEVEL_NOTE = "Trusted: pyvc, z3/cvc5, brentq model (A-BRENT), A-NODE, A-HMONO, A-LIP, A-DET, A-PERM, A-SINGLE, A-REAL."
 NATIVE_CASES = {"quick": 300, "thorough": 20000}
